@@ -266,7 +266,7 @@ def rule_limits(ctx):
                 from .sym import sufficient_cmps as _suff
                 # an exit whose condition the rule cannot read matters only if that condition mentions the limit at all
                 base_name = name.split("(")[0].strip()
-                opaque = [e for e in evs if e.guards and any(base_name in g[1] for g in e.guards)]
+                opaque = [e for e in evs if e.guards and any(base_name in g[1] and not list(_suff(g[3], g[0] == "+")) for g in e.guards)]
                 res.violate("%s : limit-missing:%s" % (key, name), "no early exit guarded by the %s test before the split is created (expected: %s)%s" % (name, what, "; %d exit(s) have conditions this rule cannot read" % len(opaque) if opaque else ""), fn_loc(fn), undecided=bool(opaque))
     return res.finish(7)
 
@@ -836,6 +836,75 @@ def rule_maskcount(ctx):
     if n < 2:
         res.missing_anchor("RowMask literals (all / none; found %d)" % n)
     return res.finish(2)
+
+
+def rule_midpoint(ctx):
+    """The sweep decides which samples go left by their *position* in the sorted order; the tree that is stored routes by
+    `value <= threshold`.  The two agree only if the threshold lies in [lower value, upper value).  The midpoint of two
+    neighbouring floats is not representable and may round to the upper one: then both go left, the counted split is not the
+    stored one (min_weight_leaf, the impurity decrease and the routing of training samples are all off, and with nothing left
+    on the right the recursion does not terminate).  So a midpoint threshold needs a guard that keeps it below the upper value."""
+    from .layout import with_parents
+    res = RuleResult("R-C14-midpoint", "a split threshold computed as the midpoint of two consecutive sorted values is kept strictly below the upper value (rounding guard)")
+    F = ctx.facts()
+    fns = [f for f in F.all_fns() if f["d"]["krate"] == "linfa_trees" and f["d"]["name"] == "fit" and (f["d"].get("self_adt") or "").endswith("TreeNode")]
+    if not fns:
+        res.missing_anchor("TreeNode::fit")
+    for fn in fns:
+        c = fn["crate"]
+        r = Render(c)
+        key = fn_key(fn)
+        inits = {}
+        for y in walk(fn["body"]):
+            if y.get("k") == "LetStmt" and y.get("init") is not None and y["pat"].get("k") == "Bind":
+                inits[y["pat"]["local"]] = y["init"]
+        mids = []
+        for y, anc in with_parents(fn["body"]):
+            val = None
+            tgt = None
+            if y.get("k") == "Assign" and peel_refs(y["l"]).get("k") == "Path":
+                val, tgt = y["r"], peel_refs(y["l"]).get("local")
+            elif y.get("k") == "LetStmt" and y.get("init") is not None and y["pat"].get("k") == "Bind":
+                val, tgt = y["init"], y["pat"]["local"]
+            if val is None:
+                continue
+            v = peel_refs(val)
+            if v.get("k") == "Binary" and v["op"] == "/" and peel_refs(v["l"]).get("k") == "Binary" and peel_refs(v["l"])["op"] == "+":
+                den = r.e(peel_refs(v["r"]))
+                if not (den.rstrip("f3264_.0") in ("2",) or "cast(2" in den or den.endswith("(2.0)") or den.endswith("(2.)")):
+                    continue
+                ops = [peel_refs(peel_refs(v["l"])["l"]), peel_refs(peel_refs(v["l"])["r"])]
+                if any("sorted_values" in r.e(o) or (o.get("k") == "Path" and o.get("local") in inits and "sorted_values" in r.e(inits[o["local"]])) or (o.get("k") == "Path" and o.get("local") == tgt) for o in ops):
+                    mids.append((y, anc, tgt, ops))
+        res.instance("%s : %d midpoint thresholds" % (key, len(mids)))
+        if not mids:
+            res.ok()          # the threshold is not a midpoint (e.g. the lower value itself): nothing can round up
+            continue
+        for y, anc, tgt, ops in mids:
+            blk = next((a for a in reversed(anc) if a.get("k") == "Block"), None)
+            guarded = False
+            if blk is not None:
+                seen = False
+                for st in list(blk["stmts"]) + ([blk["e"]] if blk.get("e") is not None else []):
+                    if st is y or any(z is y for z in walk(st)):
+                        seen = True
+                        continue
+                    if not seen:
+                        continue
+                    s0 = strip(st)
+                    if s0.get("k") == "If":
+                        cnd = strip(s0["c"])
+                        if cnd.get("k") == "Binary" and cnd["op"] in (">=", "==", ">", "<=", "<") and tgt in (peel_refs(cnd["l"]).get("local"), peel_refs(cnd["r"]).get("local")):
+                            if any(z.get("k") == "Assign" and peel_refs(z["l"]).get("local") == tgt for z in walk(s0["then"])):
+                                guarded = True
+            # `.min(lower)` style guards
+            if not guarded and any(z.get("k") in ("MethodCall", "Call") and (z.get("name") in ("min", "clamp", "next_down") ) for z in walk(y)):
+                guarded = True
+            if guarded:
+                res.ok()
+            else:
+                res.violate("%s : midpoint-may-equal-upper-value" % key, "the threshold `%s` is the rounded midpoint of two consecutive values and is used unguarded: for neighbouring floats it can equal the upper value, and `value <= threshold` then sends both samples left although the sweep counted the upper one on the right" % r.e(peel_refs(y.get("r") or y.get("init")))[:60], fn_loc(fn, y.get("ln")))
+    return res.finish(1)
 
 
 def rules(tier):
